@@ -590,6 +590,8 @@ class Grader:
                         st_out = dict(st)
                         for pi, tree in self.fixed_edges[(b, s2)]:
                             st_out[pi] = tree
+                    if getattr(self, 'refine_edge', None) is not None:
+                        st_out = self.refine_edge(b, s2, st_out)
                     k_ = key(st_out)
                     if any(key(x) == k_ for x in IN[s2]):
                         continue
